@@ -343,7 +343,7 @@ impl Parser {
                             } else if s == "dfs" {
                                 traversal = Dfs;
                                 mode = RootParsingMode::Options;
-                            } else if s.starts_with("regex") {
+                            } else if s.starts_with("regex") || s == "rx" {
                                 regexp = true;
                                 mode = RootParsingMode::Options;
                             } else {
@@ -378,7 +378,9 @@ impl Parser {
                             }
                         }
                     },
-                    Lexem::Operator(s) if s.eq("rx") => {
+                    Lexem::Operator(s)
+                        if s.to_lowercase() == "rx" || s.to_lowercase() == "regexp" =>
+                    {
                         regexp = true;
                         mode = RootParsingMode::Options;
                     }
@@ -425,6 +427,7 @@ impl Parser {
             || s == "bfs"
             || s == "dfs"
             || s.starts_with("regex")
+            || s == "rx"
     }
 
     /*
